@@ -14,6 +14,7 @@ def _crate_dir():
     os.makedirs(os.path.join(d, ".cargo"), exist_ok=True)
     shutil.copyfile(os.path.join(src, "src", "main.rs"), os.path.join(d, "src", "main.rs"))
     shutil.copyfile(os.path.join(src, ".cargo", "config.toml"), os.path.join(d, ".cargo", "config.toml"))
+    shutil.copyfile(os.path.join(src, "vectors.txt"), os.path.join(d, "vectors.txt"))
     t = open(os.path.join(src, "Cargo.toml")).read().replace('path = "/repo"', 'path = "%s"' % os.path.abspath(REPO))
     open(os.path.join(d, "Cargo.toml"), "w").write(t)
     return d
